@@ -11,6 +11,13 @@ HERE = Path(__file__).resolve().parent.parent
 BASELINE = "cd /repo && /venv/bin/python -m pytest -ra -q -p no:cacheprovider --timeout=900 --continue-on-collection-errors"
 
 CHECKS = {
+    "C04": dict(
+        technique="static analysis on Python ast: index-variance (frame) typing of the lattice linear algebra — every axis is Cartesian, a lattice basis index or a lattice component index; .T swaps, inv swaps and flips, a contraction needs the same lattice with opposite variance — seeded from the repository's own conventions (x.cell, x.scaled_positions, supercell and primitive matrices); plus rejection-path rules",
+        level="other",
+        text="Decides the clause 'the supercell has lattice S^T L' and its siblings for the primitive cell and the shortest-vector basis change for every matrix at once: a transposed or wrong-lattice product is a type error unless the matrix is diagonal, which is exactly why tests on diagonal/symmetric matrices cannot see it. Also decides that cells which cannot be tiled are rejected before index maps are stored. Does not decide duplicate-free tiling or the group property of the translation permutations (runtime values).",
+        note="Trusted: CPython ast; the seed types of cell/positions/matrices (documented conventions of PhonopyAtoms and the Supercell/Primitive docstrings). Unknown operands type to unknown and are never reported.",
+        ref="DESIGN.md §3 C04",
+    ),
     "C10": dict(
         technique="static analysis: source-to-sympy translation of the Python and C closed forms (algebraic identity checking), interval abstract interpretation with IEEE-754 specials, AST pattern rules for filters/guards/unit chain",
         level="other",
